@@ -114,7 +114,7 @@ func getterPure(fn *ssa.Function) bool {
 func (x *Exec) getterStamp(st *State) string {
 	var parts []string
 	for _, c := range x.compOrder {
-		if strings.HasPrefix(c, "F$opset13_") || strings.HasPrefix(c, "E$S_tensor_Dtype") || strings.HasPrefix(c, "E$tensor_Dtype") || strings.HasPrefix(c, "E$S_S_tensor_Dtype") {
+		if strings.HasPrefix(c, "F$opset13_") {
 			if sym, ok := st.H[c]; ok {
 				parts = append(parts, c+"="+sym)
 			}
@@ -217,11 +217,24 @@ func (x *Exec) getterValue(fr *Frame, st *State, op Val, method string) (Val, *S
 			n := sx(x.getterUF("ncons"), op.tag(), op.pay(), stamp)
 			x.emit(sx("assert", sx(">=", n, "0")))
 			v = Val{T: t, C: []string{ref, "0", n, n}}
-			// the inner tables are further objects allocated by the callee
-			oldA := x.alloc(rst)
+			// the inner tables are further objects allocated by the callee: everything at or above
+			// the old allocation counter may have been written, nothing below it
+			oldA := x.alloc(st)
 			newA := x.fresh("alloc_after_cons", SInt)
 			rst.H["$alloc"] = newA
-			x.emit(sx("assert", sx(">=", newA, oldA)))
+			x.emit(sx("assert", sx(">", newA, ref)))
+			outerT := t.Underlying().(*types.Slice)
+			innerT := outerT.Elem().Underlying().(*types.Slice)
+			var comps []string
+			for k := range layout(outerT.Elem()) {
+				comps = append(comps, fmt.Sprintf("E$%s$%d", typeKey(outerT.Elem()), k))
+			}
+			comps = append(comps, fmt.Sprintf("E$%s$0", typeKey(innerT.Elem())))
+			for _, cn := range comps {
+				x.comp(rst, cn, elemSort(SInt))
+				oldS, newS := x.havocComp(rst, cn, elemSort(SInt))
+				x.emit(sx("assert", fmt.Sprintf("(forall ((r Int)) (! (=> (< r %s) (= (select %s r) (select %s r))) :pattern ((select %s r))))", oldA, newS, oldS, newS)))
+			}
 			x.emit(sx("assert", x.consLink(rst, v, op, stamp)))
 		case "String":
 			v = x.freshVal("opname", types.Typ[types.String])
